@@ -40,8 +40,17 @@ TRUSTED = ["translator props/c12.py:translate reads facts, not spelling (comment
 # The translator reads FACTS (a number, an operator, an order), not spelling: comments are stripped, functions
 # are found by name with brace matching, locals / private names are `\w+`, `a < b` = `b > a` = `a.lt(&b)`, a named
 # constant is looked up (`const NAME: T = value;`), a sub-expression may sit in a one-level private helper.
-# A construct that is recognised and carries another value than the model's is a hard failure; a construct
-# that is not recognised is reported as `unreadable: ...` (see TRANSLATE_FALLBACK).
+# A construct that is found and is not the modelled one is a HARD failure (when in doubt: hard).  Only for the
+# pins listed in SOFT_PINS — each with a stored breaking variant in an unreadable spelling that the correspondence
+# run catches (harmless/C12_*_unreadable_changed) — a construct that cannot be found at all is reported as
+# `unreadable: ...` (see TRANSLATE_FALLBACK); for every other pin "not found" is a hard failure too.
+
+SOFT_PINS = ("retry.fail.early_return", "retry.fail.anchor", "retry.can_try", "health.progress_checks.order")
+
+
+def _nf(pin, msg):
+    """message for a construct that was not found at all"""
+    return ("unreadable: " if pin in SOFT_PINS else "not recognised: ") + msg
 
 import rustmini
 
@@ -134,53 +143,61 @@ def _read_retry(fails):
     consts = _consts(rt)
     m = re.search(r"impl\s+RetryPolicy\s+for\s+ExponentialBackoffPolicy", rt)
     if not m:
-        fails.append("unreadable: retry.rs: `impl RetryPolicy for ExponentialBackoffPolicy` not found (model: retry_fail / can_try)")
+        fails.append(_nf("retry.can_try", "retry.rs: `impl RetryPolicy for ExponentialBackoffPolicy` not found (model: retry_fail / can_try)"))
         return
     fl = _body(rt, "fail", m.end())
     if fl is None:
-        fails.append("unreadable: retry.rs: ExponentialBackoffPolicy::fail not found (model: retry_fail)")
+        fails.append(_nf("retry.fail.early_return", "retry.rs: ExponentialBackoffPolicy::fail not found (model: retry_fail)"))
     else:
         el = _alt(r"self\.last_try\.elapsed\(\)", _locals_bound_to(fl, r"self\.last_try\.elapsed\(\)"))
         # 1. inside a window fail() changes nothing: `if elapsed < wait { return; }`
         op, pos = _cmp(fl, el, r"self\.wait")
-        if op is None or not re.match(r"[^{;]*\{\s*return\s*;?\s*\}", fl[pos:]):
-            fails.append("unreadable: retry.rs: fail(): the early return inside a window (`if last_try.elapsed() < wait { return; }`) not found")
+        blk = re.match(r"[^{;]*\{([^{}]*)\}", fl[pos:]) if op else None
+        if op is None:
+            fails.append(_nf("retry.fail.early_return", "retry.rs: fail(): no comparison of last_try.elapsed() with wait (model: `if last_try.elapsed() < wait { return; }`)"))
+        elif not blk or not re.search(r"\breturn\b", blk.group(1)):
+            fails.append("retry.rs: fail() compares last_try.elapsed() with wait but no longer returns there (model: a failure inside a window changes nothing)")
         elif op != "<":
             fails.append("retry.rs: fail() returns early when last_try.elapsed() %s wait (model: <: a failure inside a window changes nothing, one at its end opens the next)" % op)
         # 2. the window is anchored at the failure
         if not re.search(r"self\.last_try\s*=\s*(?:\w+::)*Instant::now\(\)", fl):
-            fails.append("unreadable: retry.rs: fail(): `self.last_try = Instant::now()` not found (model: the window starts at the failure)")
+            if re.search(r"self\.last_try\s*=[^=]", fl):
+                fails.append("retry.rs: fail() sets last_try to something else than Instant::now() (model: the window starts at the failure)")
+            else:
+                fails.append(_nf("retry.fail.anchor", "retry.rs: fail(): `self.last_try = Instant::now()` not found (model: the window starts at the failure)"))
         # 3. tries saturate at max_tries
         m3 = (re.search(r"self\.current_tries\s*=\s*(?:\w+::)*min\(\s*self\.current_tries\s*\+\s*(\w+)\s*,\s*self\.max_tries\s*\)", fl)
               or re.search(r"self\.current_tries\s*=\s*(?:\w+::)*min\(\s*self\.max_tries\s*,\s*self\.current_tries\s*\+\s*(\w+)\s*\)", fl)
               or re.search(r"self\.current_tries\s*=\s*\(\s*self\.current_tries\s*\+\s*(\w+)\s*\)\s*\.min\(\s*self\.max_tries\s*\)", fl)
               or re.search(r"self\.current_tries\s*=\s*self\.max_tries\s*\.min\(\s*self\.current_tries\s*\+\s*(\w+)\s*\)", fl))
         if not m3:
-            fails.append("unreadable: retry.rs: fail(): `current_tries = min(current_tries + 1, max_tries)` not found")
+            fails.append(_nf("retry.fail.saturate", "retry.rs: fail(): `current_tries = min(current_tries + 1, max_tries)` not found"))
         elif _num(m3.group(1), consts) != 1:
             fails.append("retry.rs: fail() no longer counts one try per failure (model: current_tries + 1, saturating at max_tries)")
         # 4. the window length is drawn from [1, 2^tries)
         m4 = re.search(r"random_range\(\s*([\w:]+)\s*(\.\.=?)\s*(\w+)\s*\)", fl)
         if not m4:
-            fails.append("unreadable: retry.rs: fail(): `random_range(1..max_secs)` not found (model: window in [1, 2^tries))")
+            fails.append(_nf("retry.fail.window", "retry.rs: fail(): `random_range(1..max_secs)` not found (model: window in [1, 2^tries))"))
         else:
             lo, rng_op, hi = m4.group(1), m4.group(2), m4.group(3)
             hb = re.search(r"\blet\s+(?:mut\s+)?%s(?:\s*:\s*[^=;]+)?\s*=\s*([^;]+);" % re.escape(hi), fl)
             if _num(lo, consts) is None or not hb:
-                fails.append("unreadable: retry.rs: fail(): the bounds of random_range(%s%s%s) could not be read (model: [1, 2^tries))" % (lo, rng_op, hi))
+                fails.append(_nf("retry.fail.window", "retry.rs: fail(): the bounds of random_range(%s%s%s) could not be read (model: [1, 2^tries))" % (lo, rng_op, hi)))
             elif _num(lo, consts) != 1 or rng_op != "..":
                 fails.append("retry.rs: fail() draws the window from %s%s%s (model: 1..2^tries, upper bound excluded)" % (lo, rng_op, hi))
             elif not re.search(r"\b1(?:u64|_u64)?\s*\.\s*checked_shl\(\s*self\.current_tries\b|\b1(?:u64|_u64)?\s*<<\s*self\.current_tries\b|\b2(?:u64|_u64)?\s*\.\s*(?:checked_|saturating_)?pow\(\s*self\.current_tries\b", hb.group(1)):
-                fails.append("unreadable: retry.rs: fail(): the upper bound `%s` is not recognised as 2^current_tries: %s" % (hi, _ws(hb.group(1))[:120]))
+                fails.append(_nf("retry.fail.window", "retry.rs: fail(): the upper bound `%s` is not recognised as 2^current_tries: %s" % (hi, _ws(hb.group(1))[:120])))
     ct = _body(rt, "can_try", m.end())
     if ct is None:
-        fails.append("unreadable: retry.rs: ExponentialBackoffPolicy::can_try not found (model: wait <= now - last_try)")
+        fails.append(_nf("retry.can_try", "retry.rs: ExponentialBackoffPolicy::can_try not found (model: wait <= now - last_try)"))
     else:
         el = _alt(r"self\.last_try\.elapsed\(\)", _locals_bound_to(ct, r"self\.last_try\.elapsed\(\)"))
         op, pos = _cmp(ct, el, r"self\.wait")
         br = re.match(r"[^{;]*\{\s*((?:\w+::)*RetryAction::\w+)\s*\}\s*else\s*\{\s*((?:\w+::)*RetryAction::\w+)\s*\}", ct[pos:]) if op else None
-        if not br:
-            fails.append("unreadable: retry.rs: can_try(): `if last_try.elapsed() >= wait { OKAY } else { WAIT }` not found")
+        if op is None:
+            fails.append(_nf("retry.can_try", "retry.rs: can_try(): no comparison of last_try.elapsed() with wait (model: OKAY exactly when elapsed >= wait)"))
+        elif not br:
+            fails.append("retry.rs: can_try() compares last_try.elapsed() with wait but not as `if .. { OKAY } else { WAIT }` (model: OKAY exactly when elapsed >= wait)")
         else:
             first, second = br.group(1).split("::")[-1], br.group(2).split("::")[-1]
             if (op, first, second) not in ((">=", "OKAY", "WAIT"), ("<", "WAIT", "OKAY")):
@@ -193,26 +210,26 @@ def _read_backends(fails):
     main = be.split("#[cfg(test)]")[0]
     tries = [_num(x, consts) for x in re.findall(r"ExponentialBackoffPolicy::new\(\s*([\w:]+)\s*\)", main)]
     if not tries or None in tries:
-        fails.append("unreadable: backends.rs: the max_tries Backend::new gives its ExponentialBackoffPolicy could not be read (model: 6)")
+        fails.append(_nf("backends.max_tries", "backends.rs: the max_tries Backend::new gives its ExponentialBackoffPolicy could not be read (model: 6)"))
     elif set(tries) != {6}:
         fails.append("backends.rs: Backend::new uses ExponentialBackoffPolicy::new(%s) (model: 6)" % sorted(set(tries)))
     # can_open = healthy && Normal && can_try() == OKAY, in whatever control-flow form
     co = _body(be, "can_open")
     if co is None:
-        fails.append("unreadable: backends.rs: Backend::can_open not found (model: healthy && Normal && can_try()==OKAY)")
+        fails.append(_nf("backends.can_open", "backends.rs: Backend::can_open not found (model: healthy && Normal && can_try()==OKAY)"))
     else:
         atoms = [r"self\.health\.is_healthy\(\)", NORMAL.replace(r"\w+\.status", r"self\.status"), r"self\.retry_policy\.can_try\(\)", OKAY]
         odd = [r"\|\|", r"!=", r"BackendStatus::Clos", r"RetryAction::WAIT", r"\btrue\b", r"is_down"]
         if not all(re.search(a, co) for a in atoms) or any(re.search(x, co) for x in odd) \
                 or not re.search(r"!\s*self\.health\.is_healthy\(\)\s*\{\s*return\s+false\s*;?\s*\}|self\.health\.is_healthy\(\)\s*&&", co):
-            fails.append("unreadable: backends.rs: Backend::can_open is not recognised as `healthy && Normal && can_try()==OKAY`: " + _ws(co)[:200])
+            fails.append(_nf("backends.can_open", "backends.rs: Backend::can_open is not recognised as `healthy && Normal && can_try()==OKAY`: " + _ws(co)[:200]))
     ia = _body(be, "is_available")
     if ia is None:
-        fails.append("unreadable: backends.rs: Backend::is_available not found (model: healthy && Normal && !is_down())")
+        fails.append(_nf("backends.is_available", "backends.rs: Backend::is_available not found (model: healthy && Normal && !is_down())"))
     else:
         atoms = [r"self\.health\.is_healthy\(\)", NORMAL.replace(r"\w+\.status", r"self\.status"), r"!\s*self\.retry_policy\.is_down\(\)"]
         if not all(re.search(a, ia) for a in atoms) or re.search(r"\|\||!=|BackendStatus::Clos|!\s*self\.health", ia):
-            fails.append("unreadable: backends.rs: Backend::is_available is not recognised as `healthy && Normal && !is_down()`: " + _ws(ia)[:200])
+            fails.append(_nf("backends.is_available", "backends.rs: Backend::is_available is not recognised as `healthy && Normal && !is_down()`: " + _ws(ia)[:200]))
     # the fail-open filter of next_available_backend: Normal && can_try() == OKAY (health ignored)
     ok1 = r"matches!\(\s*(\w+)\.retry_policy\.can_try\(\)\s*,\s*Some\(\s*%s\s*\)\s*\)" % OKAY
     ok2 = r"(\w+)\.retry_policy\.can_try\(\)\s*==\s*Some\(\s*%s\s*\)" % OKAY
@@ -224,7 +241,7 @@ def _read_backends(fails):
             if re.search(NORMAL.replace(r"\w+\.status", re.escape(v) + r"\.status"), around) and "is_healthy" not in around:
                 found = True
     if not found:
-        fails.append("unreadable: backends.rs: the fail-open filter `status == Normal && can_try() == Some(OKAY)` not found (model: fail_open_ok)")
+        fails.append(_nf("backends.fail_open", "backends.rs: the fail-open filter `status == Normal && can_try() == Some(OKAY)` not found (model: fail_open_ok)"))
 
 
 def _read_lb(fails):
@@ -232,7 +249,7 @@ def _read_lb(fails):
     consts = _consts(lb)
     for name, want, why in [("DEFAULT_TABLE_SIZE", 65537, "prime_65537, the production Maglev table"), ("DEFAULT_WEIGHT", 100, "weight_of")]:
         if name not in consts:
-            fails.append("unreadable: load_balancing.rs: const %s not found (model: %d, %s)" % (name, want, why))
+            fails.append(_nf("lb.const", "load_balancing.rs: const %s not found (model: %d, %s)" % (name, want, why)))
         elif _num(name, consts) != want:
             fails.append("load_balancing.rs: %s is %s (model: %d, %s)" % (name, consts[name], want, why))
 
@@ -251,7 +268,7 @@ def _read_health(fails):
     # 1. deadlines are acted on whether or not the socket is ready: the ORDER deadline test -> readiness gate
     pc = _body(hs, "progress_checks")
     if pc is None:
-        fails.append("unreadable: health_check.rs: progress_checks not found (model: progress_timeouts needs no readiness)")
+        fails.append(_nf("health.progress_checks.order", "health_check.rs: progress_checks not found (model: progress_timeouts needs no readiness)"))
     else:
         started = r"\w+\.duration_since\(\s*\w+\.started_at\s*\)|\w+\.started_at\.elapsed\(\)|\w+\.saturating_duration_since\(\s*\w+\.started_at\s*\)"
         A = _alt(started, _locals_bound_to(pc, started))
@@ -274,8 +291,8 @@ def _read_health(fails):
                     gpos = m.start()
                     break
         if op is None or gpos < 0:
-            fails.append("unreadable: health_check.rs: progress_checks: %s not found (model: a probe past its deadline fails at the next poll, ready or not)"
-                         % ("the deadline test `now - started_at > timeout`" if op is None else "the readiness gate `ready.contains(&check.token)`"))
+            fails.append(_nf("health.progress_checks.order", "health_check.rs: progress_checks: %s not found (model: a probe past its deadline fails at the next poll, ready or not)"
+                             % ("the deadline test `now - started_at > timeout`" if op is None else "the readiness gate `ready.contains(&check.token)`")))
         elif dpos > gpos:
             fails.append("health_check.rs: progress_checks tests the deadline after the readiness gate: a silent backend's probe never ends (model: progress_timeouts needs no readiness)")
         elif op != ">":
@@ -283,40 +300,40 @@ def _read_health(fails):
     # 2. a round probes the Normal backends without a probe in flight for (cluster, backend id)
     ic = _body(hs, "initiate_checks")
     if ic is None:
-        fails.append("unreadable: health_check.rs: initiate_checks not found (model: initiate_cluster)")
+        fails.append(_nf("health.initiate", "health_check.rs: initiate_checks not found (model: initiate_cluster)"))
     else:
         flt = re.search(r"!\s*self\s*\.\s*in_flight\s*\.\s*iter\(\)\s*\.\s*any\(\s*\|\s*(\w+)\s*\|(.{0,200}?)\)\s*\}?\s*\)", ic, re.S)
         inner = flt.group(2) if flt else ""
         if not (flt and re.search(r"%s\.cluster_id\s*==|==\s*%s\.cluster_id" % (flt.group(1), flt.group(1)), inner)
                 and re.search(r"%s\.backend_id\s*==|==\s*%s\.backend_id" % (flt.group(1), flt.group(1)), inner)
                 and "&&" in inner and "||" not in inner and re.search(NORMAL, ic)):
-            fails.append("unreadable: health_check.rs: initiate_checks: the filter `status == Normal && !in_flight.any(same cluster && same backend id)` not found (model: initiate_cluster)")
+            fails.append(_nf("health.initiate", "health_check.rs: initiate_checks: the filter `status == Normal && !in_flight.any(same cluster && same backend id)` not found (model: initiate_cluster)"))
         last = r"\w+\.duration_since\(\s*\*?\s*\w+\s*\)|\w+\.elapsed\(\)"
         op, pos = _cmp(ic, last, r"\w*interval\w*")
         jit = re.search(r"\blet\s+(\w+)\s*=\s*\w+\s*\+\s*(?:\w+::)*Duration::from_millis\(\s*\w+\s*\)", ic)
         if op is None or not jit:
-            fails.append("unreadable: health_check.rs: initiate_checks: `now - last >= interval + jitter` not found (model: a round starts after interval + 1 whole model seconds)")
+            fails.append(_nf("health.initiate", "health_check.rs: initiate_checks: `now - last >= interval + jitter` not found (model: a round starts after interval + 1 whole model seconds)"))
         elif op != ">=":
             fails.append("health_check.rs: initiate_checks starts a round when now - last %s interval + jitter (model: >=)" % op)
     # 3. a verdict reaches the backend found by address in the cluster's list, with the configured thresholds
     rc = _body(hs, "record_check_result")
     if rc is None:
-        fails.append("unreadable: health_check.rs: record_check_result not found (model: record_result)")
+        fails.append(_nf("health.record", "health_check.rs: record_check_result not found (model: record_result)"))
     else:
         if not re.search(r"\.\s*find_backend\(\s*&?\s*\w+\s*\)", rc):
-            fails.append("unreadable: health_check.rs: record_check_result: the look-up `backend_list.find_backend(&address)` not found (model: record_result by address)")
+            fails.append(_nf("health.record", "health_check.rs: record_check_result: the look-up `backend_list.find_backend(&address)` not found (model: record_result by address)"))
         su = re.search(r"\.record_success\(\s*(?:\w+\.)?(\w+)\s*\)", rc)
         fa = re.search(r"\.record_failure\(\s*(?:\w+\.)?(\w+)\s*\)", rc)
         names = (su.group(1) if su else None, fa.group(1) if fa else None)
         if names == ("unhealthy_threshold", "healthy_threshold") or names[0] == "unhealthy_threshold" or names[1] == "healthy_threshold":
             fails.append("health_check.rs: record_check_result applies %s to a success and %s to a failure (model: healthy_threshold / unhealthy_threshold)" % names)
         elif names != ("healthy_threshold", "unhealthy_threshold"):
-            fails.append("unreadable: health_check.rs: record_check_result: record_success(healthy_threshold) / record_failure(unhealthy_threshold) not found")
+            fails.append(_nf("health.record", "health_check.rs: record_check_result: record_success(healthy_threshold) / record_failure(unhealthy_threshold) not found"))
     # 4. removing a cluster drops its probes
     rm = _body(hs, "remove_cluster")
     mm = rm and re.search(r"\.\s*in_flight\s*\.\s*retain\(\s*\|\s*(\w+)\s*\|\s*(?:\1\.cluster_id(?:\.as_str\(\))?\s*(==|!=)\s*\*?\w+|\*?\w+\s*(==|!=)\s*\1\.cluster_id(?:\.as_str\(\))?)\s*\)", rm)
     if not mm:
-        fails.append("unreadable: health_check.rs: remove_cluster: `in_flight.retain(|c| c.cluster_id != cluster_id)` not found (model: hc_remove)")
+        fails.append(_nf("health.remove", "health_check.rs: remove_cluster: `in_flight.retain(|c| c.cluster_id != cluster_id)` not found (model: hc_remove)"))
     elif (mm.group(2) or mm.group(3)) != "!=":
         fails.append("health_check.rs: remove_cluster keeps exactly the removed cluster's probes (model: hc_remove drops them)")
 
@@ -327,7 +344,7 @@ def translate():
         try:
             reader(fails)
         except (OSError, rustmini.Unrecognised, re.error, IndexError, AttributeError) as ex:
-            fails.append("unreadable: %s: %s" % (reader.__name__, ex))
+            fails.append("not recognised: %s: %s" % (reader.__name__, ex))
     return fails
 
 
